@@ -212,6 +212,8 @@ def _apply_contract_tail(ctx, c, fn, target, ns, ghosts):
         if c.proof == "table":
             ctx.summary_returns.append((c.label, rname, c.returns))
     ns3 = dict(ns, result=result, old=old)
+    if c.log_result is not None:
+        ctx.event_log.append(ctx.call_spec(c.log_result, ns3))
     ctx.applied[fn] = (c, ns3)
     for nm, f in c.ensures.items():
         params = inspect.signature(f).parameters
